@@ -532,6 +532,10 @@ func checkProperty(c *Ctx, verifDir string, prop *Property, known *KnownFile, se
 					if strings.HasPrefix(o.Key, pre+":") || o.Key == pre {
 						keep = true
 					}
+					// a trailing * makes the filter a plain key prefix
+					if strings.HasSuffix(pre, "*") && strings.HasPrefix(o.Key, strings.TrimSuffix(pre, "*")) {
+						keep = true
+					}
 				}
 				if keep {
 					kept = append(kept, o)
